@@ -898,6 +898,9 @@ func (s *scen) doFs(st *Step) (ret, ino, kind string, recs []rec) {
 	case "rename":
 		ino, kind, _ = s.inoOf(p, false)
 		err = os.Rename(p, s.fsPath(st.To))
+	case "rename2": // rename(2) itself: unlike os.Rename it lets a directory replace an empty directory
+		ino, kind, _ = s.inoOf(p, false)
+		err = syscall.Rename(p, s.fsPath(st.To))
 	case "open":
 		ino, kind, _ = s.inoOf(p, true)
 		var f *os.File
